@@ -11,8 +11,10 @@
   Calls whose flush / cleanup transaction failed (`err:oom` on bounded files, `err:other(err:commitfail)` from
   injected I/O faults) are outside `QOp` and outside the refinement theorem.  They are replayed with the writer
   states of Model/PQWriterFail.lean (`failFlush`: a failed flush leaves buffer and file as they were; a `Write`
-  whose flush failed appends nothing; a `Next` whose flush failed has finished the event; a `Close` whose
-  flush failed drops the buffered events; a failed ACK changes nothing) and the corresponding change of the
+  whose flush failed appends nothing; a `Next` whose flush failed has finished the event; a failed ACK changes
+  nothing; a `Close` whose flush failed followed by `open` is the model's `crash` operation `QCOp.crash`: the
+  buffered events are gone, writer and reader start from the file - these trace lines tie the crash semantic
+  of Props/PQQueueCrash.lean to the implementation) and the corresponding change of the
   specification state, after checking that the model agrees that the call started a transaction.  With
   `pqmodel strict` such calls end the replay of the program instead (`skip`).
   Other lines the model does not cover end the replay of the program (`skip`): unknown lines (`fault …`),
@@ -101,9 +103,11 @@ def pqSimFail (s : PQSim) (kind : String) (n : Nat) (res : String) : PQRes :=
     .ok { s with q := { s.q with w := failFlush o s1 }, a := { s.a with events := s.a.events ++ [s.a.cur], cur := [] } }
   | "close" =>
     if (flushRange s.q.w).isEmpty then .mismatch s!"{res}, but the model has nothing to flush (no transaction)" else
-    -- the writer is dropped with its buffer; the queue is reopened from the file
-    .ok { s with q := { s.q with w := s.q.w.reopen S s.cfg.pages, r := {} },
-                 a := { s.a with events := s.a.events.take s.a.flushed, cur := [], consumed := s.a.acked, left := 0 } }
+    -- the writer is dropped with its buffer, the queue is opened again from the file: exactly the model's
+    -- `crash` (Model/PQQueue.lean, C06): the implementation's behaviour here is what the crash semantic predicts
+    match s.a.cstep .crash false with
+    | some (a', _) => .ok { s with q := (s.q.cstep s.cfg .crash).1, a := a' }
+    | none => .mismatch "the specification does not accept the crash"
   | _ => .skip s!"{kind}: {res}"
 
 def kvNat (toks : List String) (k : String) : Option Nat :=
